@@ -8,6 +8,7 @@
 package main
 
 import (
+	"bufio"
 	"bytes"
 	"crypto/aes"
 	"crypto/cipher"
@@ -269,8 +270,8 @@ func gen(r *sim.Rng, tier string) *sim.Case {
 	p["variant"] = r.N(8) // bit0: plaintext as string, bit1: secret as string, bit2: aad as string
 	p["emode"] = r.Pick(6, 1, 1)
 	p["echunk"] = []int{0, 0, 1, 3, 7}[r.N(5)]
-	p["rpol"] = r.N(14)
-	p["rpol2"] = r.N(14)
+	p["rpol"] = r.N(17)
+	p["rpol2"] = r.N(17)
 	p["rfail"] = -1
 	p["wfail"] = -1
 	switch p["scen"] {
@@ -470,8 +471,97 @@ func (w *world) peerReader(data []byte, pol int) (io.Reader, func() int) {
 		sr.Seek(int64(pre), io.SeekStart)
 		return sr, func() int { return 1 }
 	}
+	switch pol {
+	case 14:
+		// several sources behind io.MultiReader (a header the caller prepends, a body, a
+		// trailer): it implements io.WriterTo and hands over one chunk per part, of any sizes
+		w.stats["stdlib_reader_with_WriteTo"]++
+		w.stats["multi_part_WriteTo_source"]++
+		var parts []io.Reader
+		rest := data
+		for k := 1 + w.r.N(4); k > 1 && len(rest) > 0; k-- {
+			cut := w.r.N(len(rest) + 1)
+			if w.r.Pct(40) {
+				cut = w.r.N(40) % (len(rest) + 1) // a short header first, the bulk later
+			}
+			switch w.r.N(3) {
+			case 0:
+				parts = append(parts, bytes.NewReader(rest[:cut]))
+			case 1:
+				parts = append(parts, strings.NewReader(string(rest[:cut])))
+			default:
+				parts = append(parts, bytes.NewBuffer(append([]byte{}, rest[:cut]...)))
+			}
+			rest = rest[cut:]
+		}
+		parts = append(parts, bytes.NewReader(rest))
+		return io.MultiReader(parts...), func() int { return len(parts) }
+	case 15:
+		// a bufio.Reader the caller has already read from: WriteTo hands over what is buffered,
+		// then whatever the underlying source delivers
+		w.stats["stdlib_reader_with_WriteTo"]++
+		w.stats["multi_part_WriteTo_source"]++
+		pre := w.r.N(20)
+		whole := append(append(make([]byte, 0, pre+len(data)), bytes.Repeat([]byte{0x5A}, pre)...), data...)
+		br := bufio.NewReaderSize(bytes.NewReader(whole), []int{16, 64, 512, 4096, 8192}[w.r.N(5)])
+		br.Peek(1)
+		br.Discard(pre)
+		return br, func() int { return 2 }
+	case 16:
+		// a source of the caller's own that implements io.WriterTo and writes chunks of its
+		// own choosing (growing, shrinking, some beyond 32 KiB)
+		w.stats["multi_part_WriteTo_source"]++
+		cw := &chunkWriterTo{data: data, r: sim.NewRng(w.r.U64())}
+		return cw, func() int { return cw.chunks }
+	}
 	rd := w.reader(data, pol, -1, false)
 	return rd, func() int { return rd.calls }
+}
+
+// chunkWriterTo is an io.Reader that also implements io.WriterTo, as io.Copy prefers.
+type chunkWriterTo struct {
+	data   []byte
+	pos    int
+	chunks int
+	r      *sim.Rng
+}
+
+func (c *chunkWriterTo) Read(p []byte) (int, error) {
+	if c.pos >= len(c.data) {
+		return 0, io.EOF
+	}
+	n := copy(p, c.data[c.pos:])
+	c.pos += n
+	return n, nil
+}
+
+func (c *chunkWriterTo) WriteTo(dst io.Writer) (int64, error) {
+	var total int64
+	for c.pos < len(c.data) {
+		n := []int{1, 15, 16, 17, 100, 4096, 32768, 32769, 40000, 70000}[c.r.N(10)]
+		if c.r.Pct(30) {
+			n = 1 + c.r.N(50000)
+		}
+		if n > len(c.data)-c.pos {
+			n = len(c.data) - c.pos
+		}
+		// the chunk is the source's own buffer: the destination must not keep or change it
+		chunk := append([]byte{}, c.data[c.pos:c.pos+n]...)
+		m, err := dst.Write(chunk)
+		c.chunks++
+		total += int64(m)
+		c.pos += m
+		if err != nil {
+			return total, err
+		}
+		if m != n {
+			return total, io.ErrShortWrite
+		}
+		if !bytes.Equal(chunk, c.data[c.pos-n:c.pos]) {
+			return total, errors.New("the destination modified the chunk it was given")
+		}
+	}
+	return total, nil
 }
 
 // spare gives an argument buffer spare capacity filled with a canary (in half of the cases):
